@@ -9,7 +9,7 @@ def sh(cmd):
 
 only = set(sys.argv[1:])
 # changes whose breakage needs a history on one long-lived object: the history check (C10) is what catches them
-EXTRA = {"C04-m2": ["C10"], "C11-m3": ["C10"]}
+EXTRA = {"C04-m2": ["C10"], "C11-m3": ["C10"], "C02-m4": ["C10"], "C15-m5": ["C17"], "C01-m3": ["C08"]}
 rc, out = sh("git -C /repo diff --quiet")
 assert rc == 0, "/repo has uncommitted changes"
 res = {}
